@@ -193,3 +193,62 @@ func verifArgDecode(types ...reflect.Type) ([]reflect.Value, error) {
 	return out, nil
 }
 
+
+func verifHandlerA(string) {}
+func verifHandlerB(int)    {}
+func verifHandlerC()       {}
+func verifHandlerD(bool)   {}
+
+var verifHandlerFns = []any{verifHandlerA, verifHandlerB, verifHandlerC, verifHandlerD}
+
+func verifEH(k int) *eventHandler {
+	h, err := newEventHandler(verifHandlerFns[k])
+	if err != nil {
+		panic(err)
+	}
+	return h
+}
+
+func verifCountEH(xs []*eventHandler, k int) int {
+	n := 0
+	p := reflect.ValueOf(verifHandlerFns[k]).Pointer()
+	for _, x := range xs {
+		if x.rv.Pointer() == p {
+			n++
+		}
+	}
+	return n
+}
+
+
+// verifReplyDecode is the `decode` closure of an ACK packet carrying one string argument.
+func verifReplyDecode(val string) parser.Decode {
+	return func(types ...reflect.Type) ([]reflect.Value, error) {
+		out := make([]reflect.Value, len(types))
+		for i := range types {
+			v := val
+			out[i] = reflect.ValueOf(&v)
+		}
+		return out, nil
+	}
+}
+
+func verifServerSock() *serverSocket {
+	return &serverSocket{
+		nsp:           &Namespace{},
+		acks:          make(map[uint64]*ackHandler),
+		debug:         newNoopDebugger(),
+		errorHandlers: newHandlerStore[*ServerSocketErrorFunc](),
+	}
+}
+
+
+func verifClientSock() *clientSocket {
+	return &clientSocket{
+		state:  clientSocketConnStateDisconnected,
+		config: &ClientSocketConfig{},
+		acks:   make(map[uint64]*ackHandler),
+		debug:  newNoopDebugger(),
+	}
+}
+
